@@ -47,11 +47,19 @@ def w_cov(case):
     viol = []
     ntr = 0
     lab = 'Cov(%s, n_cov=%d, sel=%s)' % (popbuild.label(inner), n_cov, case['sel'])
-    m = chi.CovariatePopulationModel(
-        popbuild.build(inner, None), chi.LinearCovariateModel(n_cov=n_cov))
+    # (the base model and the covariate model are the caller's objects: what is done
+    # to them after the covariate population model was built does not reach it)
+    user_base = popbuild.build(inner, None)
+    user_cvm = chi.LinearCovariateModel(n_cov=n_cov)
+    m = chi.CovariatePopulationModel(user_base, user_cvm)
     try:
         apply_history(m, case['history'])
         ntr += len(case['history'])
+        user_base.set_dim_names(['user dim %d' % k_ for k_ in range(d)])
+        user_base.set_n_ids(5)
+        user_cvm.set_covariate_names(['user cov %d' % k_ for k_ in range(n_cov)])
+        chi.CovariatePopulationModel(
+            user_base, user_cvm, dim_names=['second %d' % k_ for k_ in range(d)])
     except Exception as e:
         import traceback
         tb = traceback.format_exc()
@@ -153,6 +161,22 @@ def w_cov(case):
         viol.append({'sub': 'psi', 'message': 'individual-parameter transform '
                      'differs from the underlying model at vartheta_i (%s)' % lab,
                      'expected': exp_psi, 'observed': got_psi, 'behaviour': 'psi'})
+    # the documented flat form of eta (individual-major, length n_ids * n_dim)
+    if inner['kind'] not in ('P', 'H'):
+        flat_psi = np.asarray(m.compute_individual_parameters(
+            top_arg(), obs.flatten().copy(), cov.copy()))
+        flat_eta = np.asarray(m.compute_individual_parameters(
+            top_arg(), obs.flatten().copy(), cov.copy(), return_eta=True))
+        ntr += 2
+        if flat_psi.shape != np.shape(exp_psi) or not tol.allclose(
+                flat_psi, exp_psi) or not tol.allclose(
+                    flat_eta.reshape(n_ids, d), np.asarray(
+                        m.compute_individual_parameters(
+                            top_arg(), obs.copy(), cov.copy(), return_eta=True))):
+            viol.append({'sub': 'psi_flat', 'message': 'individual parameters for '
+                         'eta given in the documented flat form differ from the '
+                         '(n_ids, n_dim) form (%s)' % lab, 'expected': exp_psi,
+                         'observed': flat_psi, 'behaviour': 'psi_flat'})
     # sampling: sample i is a draw of the underlying model at vartheta_i of row i.
     # Under a constant script (every base variate equal) a draw is a deterministic
     # function of vartheta_i, so the row order is observable; rows are interleaved
